@@ -160,7 +160,15 @@ CheckQuery(Q) ==
                  \cup UNION {SrvAdditionals(g, ifs, idx, Q.v4) : g \in srvAnswered}
       missing == fix(must) \ actAns
       dottedOnly == missing # {} /\ \A r \in missing : \E g \in Limbo(idx) : g.dotted /\ r.k = g.fnk
-  IN V("C06.exact-missing", missing = {},
+      \* C07: a service that requires probing is not answered for on an interface where it has never been announced
+      early == {r \in actAns \cup actAdd : \E k \in Dom(reg) :
+                   /\ reg[k].probe /\ <<k, idx>> \notin Dom(ann)
+                   /\ \/ (r.k = k /\ r.ty \in {"SRV", "TXT"})
+                      \/ (r.ty = "PTR" /\ r.rk = reg[k].fn)
+                      \/ (r.k = reg[k].hostk /\ r.ty \in {"A", "AAAA"}
+                          /\ ~\E k2 \in Dom(reg) : reg[k2].hostk = reg[k].hostk /\ <<k2, idx>> \in Dom(ann))}
+  IN V("C07.early-answer", early = {}, <<"answered for a name that is still being probed (never announced on this interface)", early>>)
+     \cup V("C06.exact-missing", missing = {},
        <<IF dottedOnly THEN "question for an instance name with a dot inside a label is never matched (wire names are compared unescaped with escaped registered names)"
          ELSE "missing", missing>>)
      \cup V("C06.exact-extra", actAns \subseteq fix(may), <<"extra", actAns \ fix(may)>>)
@@ -364,9 +372,17 @@ Spawn == /\ Ev.e = "spawn"
          /\ myhost' = Ev.host + 1
          /\ ifs' = Rec[LastReset(l)].hosts[Ev.host + 1]
          /\ UNCHANGED <<scen, reg, ann, probes, noisy, owed, inbox, cmds, ipint, viol, hits, streak, cand, lost, ncseen, compet>>
+(* an interface that shows up later: every registration that has an address on its link is owed there, once the   *)
+(* daemon has looked at the interface table (one check interval), probed and announced                            *)
 IfsEv == /\ Ev.e = "ifs"
          /\ ifs' = IF Ev.host + 1 = myhost THEN Ev.ifs ELSE ifs
-         /\ UNCHANGED <<scen, myhost, reg, ann, probes, noisy, owed, inbox, cmds, ipint, viol, hits, streak, cand, lost, ncseen, compet>>
+         /\ owed' = IF Ev.host + 1 # myhost \/ ipint = 0 THEN owed
+                    ELSE owed \cup UNION {{[kind |-> "announce", fnk |-> k, idx |-> x.idx, v4 |-> TRUE,
+                                             due |-> T + ipint + 1500 + (IF reg[k].probe THEN 1000 ELSE 0)]
+                                              : x \in {y \in Range(Ev.ifs) : y.up /\ Link(reg[k], Ev.ifs, y.idx) # {}
+                                                                                /\ Link(reg[k], ifs, y.idx) = {}
+                                                                                /\ <<k, y.idx>> \notin Dom(ann)}} : k \in Dom(reg)}
+         /\ UNCHANGED <<scen, myhost, reg, ann, probes, noisy, inbox, cmds, ipint, viol, hits, streak, cand, lost, ncseen, compet>>
 Call == /\ Ev.e = "call"
         /\ cmds' = Append(cmds, Ev)
         /\ UNCHANGED <<scen, myhost, ifs, reg, ann, probes, noisy, owed, inbox, ipint, viol, hits, streak, cand, lost, ncseen, compet>>
